@@ -75,6 +75,12 @@ def _filter(m, spec, case, start, deviation, ys):
                     db[name] = ir.Series(start=start, values=np.zeros((case["N"], 1)))
                 db[name][start + t] = v
         kw["shocks_from_data"] = True
+    elif case.get("returns", 0) % 3 == 1:
+        # leftovers of an earlier scenario in the input databox: without shocks_from_data they must be ignored (and
+        # must not come back in the smoothed databox, which is re-simulated below)
+        import irispie as ir
+        for i, s_ in enumerate(x for x in lm.shock_names(spec) if x):
+            db["ant_" + s_] = ir.Series(start=start, values=tuple(0.7 - 0.4 * ((t + i) % 3) for t in range(case["N"])))
     kw.update(kc.return_kwargs(case, need="smooth"))      # an output selection that still returns the smoother
     out = api("kalman_filter", m.kalman_filter, db, span, deviation=deviation, rescale_variance=case["rescale"], **kw)
     return out, levels, lin
